@@ -649,6 +649,12 @@ func checkErrorCodes(c *core.Ctx, r *core.Rule) {
 					}
 				}
 			}
+			// early-return form: `if errors.Is(…) { return http.StatusNotImplemented }`
+			if ret, ok := eb.Instrs[len(eb.Instrs)-1].(*ssa.Return); ok && len(ret.Results) == 1 {
+				if k, ok := core.ConstInt(ret.Results[0]); ok {
+					return k, true
+				}
+			}
 		}
 		return 0, false
 	}
@@ -681,6 +687,26 @@ func checkErrorCodes(c *core.Ctx, r *core.Rule) {
 			if phi, ok := in.(*ssa.Phi); ok {
 				for _, e := range phi.Edges {
 					if k, ok := core.ConstInt(e); ok && k == 500 {
+						def = true
+					}
+				}
+			}
+			// early-return form: the return reached when every test failed
+			if ret, ok := in.(*ssa.Return); ok && len(ret.Results) == 1 {
+				if k, ok := core.ConstInt(ret.Results[0]); ok && k == 500 {
+					falseAll := true
+					for _, t := range []*ssa.Call{isNI, asCT, asErr} {
+						under := false
+						for _, eb := range core.EdgeBlocks(t, false) {
+							if eb == b || eb.Dominates(b) {
+								under = true
+							}
+						}
+						if !under {
+							falseAll = false
+						}
+					}
+					if falseAll {
 						def = true
 					}
 				}
